@@ -622,6 +622,12 @@ impl RawAutomaton {
         // forward order would miss some transitions when some initial states
         // happen to be final as well.
         for automaton in automata.iter().rev() {
+            if automaton.nothing_after_final()
+                && automaton.final_states.contains(&automaton.initial_state)
+            {
+                // `automaton` accepts exactly the empty word: nothing to concatenate.
+                continue;
+            }
             let nb_states = concat_automaton.transitions.len();
             let (mut transitions, _) = RawAutomaton::filter_map_transitions(
                 &automaton.transitions,
